@@ -40,7 +40,7 @@ CHECKS = {
     },
     "C07": {
         "level": "exploration",
-        "rule": "rapid-generated histories (1-40 operations: block / filter batch appends of any size incl. empty, single and multi-header rollbacks incl. to and past genesis, block-manager style two-store rollbacks, re-append of rolled-back headers, reopen, appends whose index commit is made to fail) applied to the real stores and to two in-memory lists; after every operation every read method of both stores is compared with the lists. Non-trivial = the history contains a rollback followed by an append, or a reopen after a mutation, or an injected write fault; distinct = distinct case JSON Unit store-big: the same oracle on histories with thousands of headers (batch appends and rollbacks of 1999 / 2000 / 2001 / 2048+ headers in one call, as the header import's compensation does): size thresholds inside the stores only show at that scale.",
+        "rule": "rapid-generated histories (1-40 operations: block / filter batch appends of any size incl. empty, single and multi-header rollbacks incl. to and past genesis, block-manager style two-store rollbacks, re-append of rolled-back headers, reopen - plain or with a filter-header state assertion that holds / lies above the tip / fails (the store must then come up reset to its genesis entry) -, appends whose index commit is made to fail) applied to the real stores and to two in-memory lists; after every operation every read method of both stores is compared with the lists. Non-trivial = the history contains a rollback followed by an append, or a reopen after a mutation, or an injected write fault; distinct = distinct case JSON Unit store-big: the same oracle on histories with thousands of headers (batch appends and rollbacks of 1999 / 2000 / 2001 / 2048+ headers in one call, as the header import's compensation does): size thresholds inside the stores only show at that scale.",
         "assumptions": [
             "appends respect the documented precondition (heights continue the tip; filter headers never beyond the block tip); block headers below the filter tip are only rolled back after the filter headers (as the block manager does)",
             "database write errors are injected by a walletdb wrapper that rolls the transaction back; file-level write errors are not injected by this unit",
@@ -57,7 +57,7 @@ CHECKS = {
     },
     "C08": {
         "level": "fault_enumeration",
-        "rule": "rapid-generated store histories (1-10 operations) run on a database wrapper whose hooks copy the three durable files right before and right after EVERY index commit of every primitive store call (this observes the actual order of file and index mutations), plus, for every file growth seen at a pre-commit point, synthesized torn lengths (1 byte, mid-entry, k whole entries, k entries plus part, all but one byte). Every crash image is restarted: both stores must open, equal the list model before or after the interrupted step, keep filter tip <= block tip, and accept and read back further appends. evaluations = histories; counters.crash_images = images restarted. Non-trivial = history with at least one crash point strictly inside an operation; distinct = distinct case JSON Unit bm-crash: block-manager operations (filter-header batch, rollback of 1-6 blocks followed by the first headers of a new branch, stale batch after a rollback) on real stores; the durable files are copied at every index commit (pre and post) and at every yield point between the individual store updates; every image is restarted: both stores open, the block chain is a state the operation passed through, the filter chain is not ahead of it and belongs to it, a block manager can be created on it, writes the missing filter headers and rolls back one block. Non-trivial there = more than two images inside operations. Unit import-crash: chainimport.Import of a correct connecting pair of files (generated start height, window, batch size, lagging filter store) on the wrapped database with the same commit-level and torn-append crash images; every image must reopen, hold the earlier contents extended by a prefix of the file with filter tip <= block tip, and accept the next headers of the chain. Unit store-big: the same oracle on histories with thousands of headers (batch appends and rollbacks of 1999 / 2000 / 2001 / 2048+ headers in one call, as the header import's compensation does): size thresholds inside the stores only show at that scale.",
+        "rule": "rapid-generated store histories (1-10 operations) run on a database wrapper whose hooks copy the three durable files right before and right after EVERY index commit of every primitive store call (this observes the actual order of file and index mutations), plus, for every file growth seen at a pre-commit point, synthesized torn lengths (1 byte, mid-entry, k whole entries, k entries plus part, all but one byte). Every crash image is restarted (a third of them with a filter-header state assertion that holds, a third with one above the tip, as a client configured with AssertFilterHeader restarts): both stores must open, equal the list model before or after the interrupted step, keep filter tip <= block tip, and accept and read back further appends. evaluations = histories; counters.crash_images = images restarted. Non-trivial = history with at least one crash point strictly inside an operation; distinct = distinct case JSON Unit bm-crash: block-manager operations (filter-header batch, rollback of 1-6 blocks followed by the first headers of a new branch, stale batch after a rollback) on real stores; the durable files are copied at every index commit (pre and post) and at every yield point between the individual store updates; every image is restarted: both stores open, the block chain is a state the operation passed through, the filter chain is not ahead of it and belongs to it, a block manager can be created on it, writes the missing filter headers and rolls back one block. Non-trivial there = more than two images inside operations. Unit import-crash: chainimport.Import of a correct connecting pair of files (generated start height, window, batch size, lagging filter store) on the wrapped database with the same commit-level and torn-append crash images; every image must reopen, hold the earlier contents extended by a prefix of the file with filter tip <= block tip, and accept the next headers of the chain. Unit store-big: the same oracle on histories with thousands of headers (batch appends and rollbacks of 1999 / 2000 / 2001 / 2048+ headers in one call, as the header import's compensation does): size thresholds inside the stores only show at that scale.",
         "assumptions": [
             "crash model = process death: writes reach the page cache in program order; power loss / fsync reordering is out of scope",
             "bbolt commits are atomic",
